@@ -79,11 +79,10 @@ func opData(o Op) []byte {
 	return core.NewRng(int64(o.DS), "d").Bytes(o.N)
 }
 
-// Name pools. Simple names: no separator, no ".tmp" suffix (DirFs stages
-// AtomicCreate(dir,name) in <root>/<name>.tmp: a directory called "<name>.tmp"
-// would collide with it; that quirk belongs to C13 and is kept out of here by
-// never using ".tmp" names for directories or files, and by keeping directory
-// and file names disjoint).
+// Name pools of the random pools A and B: a few ordinary names, so that
+// collisions, re-creation after Delete and links across directories are
+// frequent. The dimension "shape of the name" is pool N and the name matrix
+// (c12names.go).
 var c12DirPool = []string{"d0", "d1", "d2", "dir.A", "D0", "long-directory-name-0123456789"}
 var c12NamePool = []string{"a", "b", "c", "A", "log", "f.txt", "x y", ".h", "é", "tmp", "a.tmp.x", "0",
 	"n-0123456789-0123456789-0123456789-0123456789-0123456789-0123456789-0123456789-0123456789-0123456789-0123456789"}
